@@ -406,6 +406,55 @@ class KCache:
 KCACHE = KCache()
 
 
+class KClock:
+    """K-CLOCK: fault injection on the clocks. A result that depends only on the input does not depend on how long the call has
+    been running or on when it runs. Every reading of a clock of the `time` module that is made by repository code (one of the four
+    innermost frames belongs to the tree under test) is recorded and answered with a value that has jumped ahead by another hour
+    (monotonic: the offset only grows). Readings by anything else (the harness, logging, threading) get the real value."""
+    NAMES = ("time", "monotonic", "perf_counter", "process_time", "thread_time")
+
+    def __init__(self):
+        self.installed = False
+        self.reads = 0
+        self.sites = {}
+        self.offset = 0
+        self.lock = threading.Lock()
+
+    def install(self):
+        if self.installed:
+            return
+        import time as _t
+        prefix = os.path.join(REPO, "explorerscript")
+
+        def wrap(orig, ns):
+            def clock(*a):
+                v = orig(*a)
+                f = sys._getframe(1)
+                for _ in range(4):
+                    if f is None:
+                        break
+                    if f.f_code.co_filename.startswith(prefix):
+                        with self.lock:
+                            self.reads += 1
+                            k = f"{os.path.relpath(f.f_code.co_filename, REPO)}:{f.f_code.co_qualname}"
+                            self.sites[k] = self.sites.get(k, 0) + 1
+                            self.offset += 3600
+                            off = self.offset
+                        return v + (off * 10 ** 9 if ns else off)
+                    f = f.f_back
+                return v
+            return clock
+
+        for n in self.NAMES:
+            for name, ns in ((n, False), (n + "_ns", True)):
+                if hasattr(_t, name):
+                    setattr(_t, name, wrap(getattr(_t, name), ns))
+        self.installed = True
+
+
+KCLOCK = KClock()
+
+
 _PROBE = {"installed": False, "seen": 0}
 
 
